@@ -184,31 +184,34 @@ def r_keys(ctx) -> RuleResult:
     _check_invariant_helper(ctx, res)
     # serializer map
     ser = repo.module("tucan.serialization")
-    smap = repo.try_const(ser, "_SERIALIZER_NODE_ATTRIBUTE_MAPPING", _NO)
+    from .common import attribute_spelling_tables
+    (SNAME, smap), (DNAME, dmap0) = attribute_spelling_tables(ctx)
+    if smap is None:
+        smap = _NO
     if smap is _NO or not isinstance(smap, dict):
-        raise AnalysisError("_SERIALIZER_NODE_ATTRIBUTE_MAPPING is no longer a constant dict (anchor vanished)")
+        raise AnalysisError("the serializer's table of attribute spellings is no longer a constant dict (anchor vanished)")
     want = set(IDENTITY_KEYS) - {"atomic_number"}
     ok = set(smap) == want
     res.inst("tucan.serialization", f"serializer attribute map keys {sorted(smap)}", "ok" if ok else "fail")
     if not ok:
-        res.fail(Finding("R-KEYS", SER, "_SERIALIZER_NODE_ATTRIBUTE_MAPPING", "keys " + str(sorted(smap)),
+        res.fail(Finding("R-KEYS", SER, SNAME, "keys " + str(sorted(smap)),
                          f"serializer writes attributes {sorted(smap)}; the identity attributes besides the element are {sorted(want)}",
-                         line=ser.assign_nodes["_SERIALIZER_NODE_ATTRIBUTE_MAPPING"].lineno))
+                         line=ser.assign_nodes[SNAME].lineno))
     inj = len(set(smap.values())) == len(smap)
     res.inst("tucan.serialization", "serializer attribute map is injective", "ok" if inj else "fail")
     if not inj:
-        res.fail(Finding("R-KEYS", SER, "_SERIALIZER_NODE_ATTRIBUTE_MAPPING", str(smap), "two attributes share one spelling: the string cannot be decoded"))
+        res.fail(Finding("R-KEYS", SER, SNAME, str(smap), "two attributes share one spelling: the string cannot be decoded"))
     # parser map = inverse
     par = repo.module("tucan.parser.parser")
-    dmap = repo.try_const(par, "_DESERIALIZER_NODE_ATTRIBUTE_MAPPING", _NO)
+    dmap = dmap0 if dmap0 is not None else _NO
     if dmap is _NO:
-        raise AnalysisError("_DESERIALIZER_NODE_ATTRIBUTE_MAPPING is no longer a constant (anchor vanished)")
+        raise AnalysisError("the parser's table of attribute spellings is no longer a constant (anchor vanished)")
     inv = {v: k for k, v in smap.items()}
     ok = dmap == inv
     res.inst("tucan.parser.parser", f"parser key table {dmap} = inverse of serializer's", "ok" if ok else "fail")
     if not ok:
-        res.fail(Finding("R-KEYS", PAR, "_DESERIALIZER_NODE_ATTRIBUTE_MAPPING", str(dmap), f"parser's key table is not the inverse of the serializer's ({inv})",
-                         line=par.assign_nodes["_DESERIALIZER_NODE_ATTRIBUTE_MAPPING"].lineno))
+        res.fail(Finding("R-KEYS", PAR, DNAME, str(dmap), f"parser's key table is not the inverse of the serializer's ({inv})",
+                         line=par.assign_nodes[DNAME].lineno))
     # grammar literals
     G = grammars(ctx)
     for nm, rules, f in (("ebnf", G.ebnf, "tucan/parser/tucan.ebnf"), ("g4", G.g4, "tucan/parser/tucan.g4")):
